@@ -161,6 +161,15 @@ class Harness:
             elif op == "EP":
                 _, tgt, kind, back, dm = a
                 out.append(self.make_event(max(0, now - back), tgt, kind, dm, 0, now))
+            elif op == "EA":
+                _, tgt, kind, t, dm = a
+                out.append(self.make_event(t, tgt, kind, dm, 0, now))
+            elif op == "RH":
+                h = self.held.pop(a[1], None)
+                if h is not None:
+                    ev, tag, (t, tgt, kind, dm) = h
+                    self.trace.append(f"c {tag} {t} {tgt} {kind} {1 if dm else 0} {now}")
+                    out.append(ev)
             elif op == "X":
                 p = self.last_kind.get(a[1])
                 if p is not None:
@@ -202,6 +211,16 @@ class Harness:
             if p.get("cancelled"):
                 ev.cancel()
                 self.trace.append(f"x {self.tagc}")
+        # events created before the run but only handed to the scheduler by a handler during it;
+        # throw-away events in between advance the library's creation counter
+        self.held = {}
+        for i, hd in enumerate(self.prog.get("held", [])):
+            for _ in range(self.prog.get("dummies", 0)):
+                self.Event(time=self.Instant(0), event_type="k0", target=self.ents[0])
+            tag = self.next_tag()
+            ev = self.Event(time=self.Instant(hd["time"]), event_type=f"k{hd['kind']}", target=self.ents[hd["tgt"]],
+                            daemon=bool(hd["daemon"]), context={"metadata": {"tag": tag}})
+            self.held[i] = (ev, tag, (hd["time"], hd["tgt"], hd["kind"], hd["daemon"]))
         return self.sim
 
     def run(self, driver=None):
@@ -234,6 +253,8 @@ def program_lines(prog):
     lines = [f"ents {prog['ents']}"]
     for p in prog["pre"]:
         lines.append(f"pre {p['tgt']} {p['kind']} {p['time']} {1 if p['daemon'] else 0} {p['hook']} {1 if p.get('cancelled') else 0}")
+    for hd in prog.get("held", []):
+        lines.append(f"held {hd['tgt']} {hd['kind']} {hd['time']} {1 if hd['daemon'] else 0}")
     for d in prog["defs"]:
         segs = []
         for seg in d["segs"]:
@@ -241,8 +262,8 @@ def program_lines(prog):
             for a in seg["acts"]:
                 if a[0] == "E":
                     acts.append(f"E {a[1]} {a[2]} {a[3]} {1 if a[4] else 0} {a[5]}")
-                elif a[0] == "EP":
-                    acts.append(f"EP {a[1]} {a[2]} {a[3]} {1 if a[4] else 0}")
+                elif a[0] in ("EP", "EA"):
+                    acts.append(f"{a[0]} {a[1]} {a[2]} {a[3]} {1 if a[4] else 0}")
                 else:
                     acts.append(" ".join(str(x) for x in a))
             t = seg["term"]
